@@ -13,7 +13,7 @@ frames N { frame TY UPS {ECUPS}*NEC GSHIFT HAVECROP X0 Y0 W H BMODE BALPHA BCLAM
            tr K { rct B T | pal B N NBC NBD DP | sq N {H INPL B N}*N }*K
            pals K { W H data*(W*H) }*K
            tree <preorder: D PROP VAL | L CTX PRED OFF MUL>
-           coded 0|1 [ent 0..6] [tocperm SEED]
+           coded 0|1 [ent 0..8] [tocperm SEED]
            chans K { W H data*(W*H) }*K }*N
 ```
 Answer: `ok <hex> nframes N { paths.. ; numGroups ; K { W H data } }` or `invalid <why>`.
